@@ -73,10 +73,10 @@ func init() {
 			ExpectReach: []string{"end-denied", "end-sink-failed"}, Desc: "DB." + n + ": sealed audit record before effect/disclosure; fail-closed on sink faults; the record names the secret the caller named, also for names that are not valid UTF-8",
 			ModelOnlyLabels: map[string]string{"record-content": illNote, "denial-record": illNote, "effect-after-sealed-record": illNote, "disclosure-after-sealed-record": illNote}})
 	}
-	for _, n := range []string{"UnchangedPollSilent", "List", "WriteEntries", "ConcurrentWriters"} {
+	for _, n := range []string{"UnchangedPollSilent", "List", "WriteEntries", "ConcurrentWriters", "SinkRecovers"} {
 		c06.Harnesses = append(c06.Harnesses, &HarnessSpec{Name: "verifHarnessC06" + n, Pkg: "db", Stubs: stubs,
 			Params: map[string]int{"secrets": 2, "versions": 2}, ThoroughParams: map[string]int{"secrets": 3, "versions": 3},
-			ExpectReach: []string{"end"}, Desc: "audit: " + n})
+			ExpectReach: []string{"end"}, Desc: "audit: " + n + map[string]string{"SinkRecovers": " -- two requests in a row, the sink fails (possibly after taking a non-empty proper prefix of the record: short write) while the first record is written and accepts writes afterwards; the first request fails closed, and the second, if served, has a complete synced line of its own in the file"}[n]})
 	}
 	c06.Harnesses = append(c06.Harnesses, &HarnessSpec{Name: "verifHarnessC05AuditFile", Pkg: "db", Stubs: dbEnvStubs, Params: map[string]int{},
 		ExpectReach: []string{"end"}, NoNative: "file-system model", Desc: "the audit file is opened write-only, append, create, owner-only (records are appended, never written over)"})
@@ -105,6 +105,11 @@ func init() {
 			Params: map[string]int{"secrets": 1, "versions": 2}, ThoroughParams: map[string]int{"secrets": 2, "versions": 3}, ExpectReach: []string{"end"},
 			NoNative: "the second request is run re-entrantly from the audit sink, a schedule the native harness cannot force",
 			Desc:     "DB." + n + " with another client's whole request (put/activate/delete-version/delete on the same secret) executed in the window between its audit record and its critical section (for get / conditional get: two requests, e.g. a rotation): state consistent, both puts retrievable under distinct numbers, a read's outcome is the one it has when run alone before, between or after the other requests"})
+	}
+	for _, n := range []string{"InfoStable", "ListStable"} {
+		c14.Harnesses = append(c14.Harnesses, &HarnessSpec{Name: "verifHarnessC14" + n, Pkg: "db", Stubs: dbStubs,
+			Params: map[string]int{"secrets": 1, "versions": 2}, ThoroughParams: map[string]int{"secrets": 2, "versions": 2}, ExpectReach: []string{"end"},
+			Desc: "DB." + n[:4] + ": the response a client holds is not rewritten by one or two later requests (put/activate/delete-version/delete on the same secret) -- a response sharing memory with database state would show a state no sequential order explains"})
 	}
 	propRegistry = append(propRegistry, c14)
 }
